@@ -2,6 +2,7 @@
 //! invariants every property shares checked in one place.
 
 pub mod dec;
+pub mod capi;
 pub mod comp;
 pub mod guardbuf;
 
